@@ -63,6 +63,15 @@ def export_stmt(s, ids):
         if any(q.is_composite() for q in sc.modified):
             raise Unsupported('composite store')
         return ('atom', sid, li, _names(sc.read), _names(sc.modified), safe_unparse(s))
+    if isinstance(s, ast.Raise):
+        if s.exc is None:
+            raise Unsupported('bare raise')
+        return ('raise', sid, li, _names(_scope(s).read))
+    if isinstance(s, ast.Try) and not is_lowered_return(s):
+        if any(h.name is not None for h in s.handlers):
+            raise Unsupported('except ... as name')
+        return ('try', sid, li, [export_stmt(x, ids) for x in s.body], [[export_stmt(x, ids) for x in h.body] for h in s.handlers],
+                [export_stmt(x, ids) for x in s.orelse], [export_stmt(x, ids) for x in s.finalbody])
     if is_lowered_return(s):
         rd, md = set(), set()
         for x in s.body:
@@ -166,6 +175,13 @@ def to_coq(tree, L):
     def stm(st):
         if st[0] == 'atom':
             return 'AAtom %d %s %s' % (st[1], vs(st[3]), vs(st[4]))
+        if st[0] == 'raise':
+            return 'ARaise %d %s' % (st[1], vs(st[3]))
+        if st[0] == 'try':
+            hs = 'AHNil'
+            for h in reversed(st[4]):
+                hs = 'AHCons (%s) (%s)' % (blk(h), hs)
+            return 'ATry (%s) (%s) (%s) (%s)' % (blk(st[3]), hs, blk(st[5]), blk(st[6]))
         Lm = L.get(st[1])
         if Lm is None:
             raise Unsupported('no generated code recorded for statement %d' % st[1])
